@@ -58,7 +58,7 @@ DEFAULT_PROFILE = {
 
 PROFILES = {
     "C01": {},
-    "C02": {"put": 40, "reupload": 8, "proppatch": 8, "restart": 5, "grammar": 0.4},
+    "C02": {"put": 40, "reupload": 8, "proppatch": 8, "restart": 5, "grammar": 0.4, "external": 0.08, "multiget": 12},
     "C03": {"cond": 0.85, "get": 12, "put": 40, "delete": 16},
     "C06": {"put": 45, "delete": 14, "restart": 6, "post": 8, "uidheavy": True},
     "C07": {"delete": 18, "put": 34, "delcoll": 3, "mk": 5, "reupload": 6},
@@ -68,7 +68,7 @@ PROFILES = {
     "C14": {"invalid": 0.3, "reupload": 16, "put": 40, "grammar": 0.65, "ctparams": 0.6},
     "C15": {"proppatch": 45, "restart": 8, "mk": 6, "delcoll": 3, "put": 12, "propheavy": True, "propsingle": 0.4},
     "C16": {"mk": 8, "delcoll": 5, "post": 10},
-    "C17": {"multiget": 22, "delete": 12},
+    "C17": {"multiget": 22, "delete": 12, "external": 0.1},
 }
 
 
@@ -199,7 +199,9 @@ def run_random_session(seed, prof, frontend="wsgi", prefix="/", backend="tree", 
                 ct = None
                 if rng.random() < prof.get("ctparams", 0.3):
                     ct = gamma.decorate_ct(rng, gamma.content_type_for(n))
-                s.put(c, n, data, ct=ct, im=im, inm=inm, valid=valid, fault=fault, chunked=rng.random() < 0.2)
+                ext = not fault and rng.random() < prof.get("external", 0.04)
+                s.put(c, n, data, ct=ct, im=im, inm=inm, valid=valid, fault=fault,
+                      chunked=(not ext and rng.random() < 0.2), external=ext)
             elif op == "post":
                 usevcf = c == "ab1"
                 data, valid = rng.choice(vcf if usevcf else ics)
@@ -212,7 +214,7 @@ def run_random_session(seed, prof, frontend="wsgi", prefix="/", backend="tree", 
                 n = rng.choice(names)
                 im = rng.choice(IM_CLASSES) if rng.random() < prof["cond"] else None
                 fault = rng.randint(1, 10) if rng.random() < prof["fault"] else 0
-                s.delete(c, n, im=im, fault=fault)
+                s.delete(c, n, im=im, fault=fault, external=(not fault and rng.random() < prof.get("external", 0.04)))
             elif op == "mk":
                 k = kinds[c] if rng.random() < 0.7 else rng.choice(["calendar", "addressbook", "other"])
                 props = ()
